@@ -21,24 +21,24 @@ ENGINES = {
 
 # property -> (level, text, note, technique, design_ref)
 CHECKS = {
-    "C04": ("fault_enumeration Scenarios also include files missing on both sides (restored before the retry), a remote index carried over from an earlier push whose directories have since vanished, a source object that disappears between the status query and its upload, permission errors, and a third of the closed requests are sent through index collect()+push() instead of transfer(); the abort-at-every-point clause with a real process kill is executed by the C15 engine's xfer_multi family.",
-            "Seeded scenarios (trees sharing files, closed request, closed pre-populated destination of each store class incl. a simulated remote with atomic puts, optional remote index); per scenario every single-object upload failure and every failure subset up to the stated bound is executed against the real transfer code, closure of the destination is evaluated after every destination mutation (i.e. at every possible kill point of the run), then a clean retry must complete the destination. Sampling over scenarios, enumeration within; evidence not proof.",
+    "C04": ("fault_enumeration",
+            "Seeded scenarios (trees sharing files, closed request, closed pre-populated destination of each store class incl. a simulated remote with atomic puts, optional remote index); per scenario every single-object upload failure and every failure subset up to the stated bound is executed against the real transfer code, closure of the destination is evaluated after every destination mutation (i.e. at every possible kill point of the run), then a clean retry must complete the destination. Sampling over scenarios, enumeration within; evidence not proof. Scenarios also include files missing on both sides (restored before the retry), a remote index carried over from an earlier push whose directories have since vanished, a source object that disappears between the status query and its upload, permission errors, and a third of the closed requests are sent through index collect()+push() instead of transfer(); the abort-at-every-point clause with a real process kill is executed by the C15 engine's xfer_multi family.",
             "Trusts tmpfs POSIX semantics, the stepwise copyfile re-implementation, SimRemoteFS atomic puts; faults are injected at copy-create / mid-copy / rename / remote put / remote ack.",
             "deterministic simulation: seeded scenarios + per-scenario upload-fault subset enumeration with inline closure monitor", "DESIGN.md §5 C04"),
-    "C11": ("fault_enumeration Also: destinations with a hash-state database, a pre-populated remote index whose directories vanished, a non-atomic remote on which a failed put leaves a truncated object under the final name, empty directory objects.",
-            "Open-world transfer scenarios (shallow or expanded requests, arbitrary source/destination contents, ids missing on both sides, corrupt sources under verify) with the per-scenario upload-failure subsets enumerated as for C04; after each run the TransferResult is compared with before/after listings of both stores taken straight from the kernel / the simulated remote: partition, transferred => present with right bytes, absent => failed or missing on both sides, present-before => neither re-sent (seam log) nor reported, source bytes unchanged.",
+    "C11": ("fault_enumeration",
+            "Open-world transfer scenarios (shallow or expanded requests, arbitrary source/destination contents, ids missing on both sides, corrupt sources under verify) with the per-scenario upload-failure subsets enumerated as for C04; after each run the TransferResult is compared with before/after listings of both stores taken straight from the kernel / the simulated remote: partition, transferred => present with right bytes, absent => failed or missing on both sides, present-before => neither re-sent (seam log) nor reported, source bytes unchanged. Also: destinations with a hash-state database, a pre-populated remote index whose directories vanished, a non-atomic remote on which a failed put leaves a truncated object under the final name, empty directory objects.",
             "With a remote index the destination is generated closed (the index's 'directory exists => contents exist' shortcut is by design and C12's subject). Corrupt dir objects in the source are not generated (transfer asserts on them).",
             "deterministic simulation: seeded scenarios + upload-fault subset enumeration, result vs store-listing oracle", "DESIGN.md §5 C11"),
     "C12": ("exploration",
             "Seeded histories over a source, a destination (each store class, SimRemoteFS) and one shared ObjectDBIndex: clean and faulty closed transfers, external deletions by 'another client', status and compare_status; without index every answer must equal the actual listing (both lookup strategies of the generic class are reached by randomising LIST_OBJECT_PAGE_SIZE / TRAVERSE_PREFIX_LEN and adding 00-prefixed fillers); with index every directory reported existing must be in the store at that instant and every id the index holds must have been delivered earlier (tracked from seam events) or be listed by a directory present now.",
             "Index-free exactness for LocalHashFileDB uses intact objects only (its existence query is an integrity check, C07).",
             "deterministic simulation: seeded operation/fault histories checked against a reference model after every step", "DESIGN.md §5 C12"),
-    "C15": ("fault_enumeration Families since added: closed two-directory push with shared files and a remote index (transfer with cache_odb = destination, with the default cache_odb, and through index collect()+push()), two-cache index save.",
-            "For each seeded scenario (operation family x reflink variant x tree x pre-populated destination) a golden run counts every seam point of the operation - filesystem mutations including mid-copy, state-database calls, remote puts - and then for EVERY k the operation is re-run from scratch in a forked process that dies with os._exit at point k (no finally/except clean-up runs, staged in-memory objects vanish); a second fresh process audits the durable state (no write-protected object mismatches its name; no hash-state row whose token matches the file vouches for a wrong hash; every valid directory object has its files), re-runs the operation and audits again (all objects valid and protected, object set equals the golden run's). Complete over crash points per scenario, sampled over scenarios.",
+    "C15": ("fault_enumeration",
+            "For each seeded scenario (operation family x reflink variant x tree x pre-populated destination) a golden run counts every seam point of the operation - filesystem mutations including mid-copy, state-database calls, remote puts - and then for EVERY k the operation is re-run from scratch in a forked process that dies with os._exit at point k (no finally/except clean-up runs, staged in-memory objects vanish); a second fresh process audits the durable state (no write-protected object mismatches its name; no hash-state row whose token matches the file vouches for a wrong hash; every valid directory object has its files), re-runs the operation and audits again (all objects valid and protected, object set equals the golden run's). Complete over crash points per scenario, sampled over scenarios. Families since added: closed two-directory push with shared files and a remote index (transfer with cache_odb = destination, with the default cache_odb, and through index collect()+push()), two-cache index save.",
             "Crash = process death; no power-loss model. SQLite statements are atomic (crash points fall between statements). A working reflink is modelled as create-empty + atomic clone. The generic store class over a POSIX directory is not a target (healing belongs to LocalHashFileDB); it is covered over SimRemoteFS with atomic puts.",
             "deterministic simulation: process-death enumeration at every seam point + restart in a fresh process + audits", "DESIGN.md §5 C15"),
-    "C16": ("exploration One genuine defect (F15, reflink create/clone vs healing race) is recorded in known_findings.json and printed as KNOWN-FINDING; every failed upload's exception type and innermost library frame are part of the signature so that any other failure still alarms.",
-            "2-4 writers with heavily overlapping trees run build()+transfer() into one LocalHashFileDB with one shared hash-state database, as real threads (one State object) or as forked processes (optionally after setuid to an unprivileged uid, so the kernel - not a model - decides permission outcomes). A seeded controller holds a single baton: a writer runs only between two seam points (every filesystem mutation, stat/open/scandir read, state-database call, and every SQL statement issued outside a transaction) and the controller picks who proceeds next under a uniform / sticky / priority-with-change-points policy, so one seed is one exactly repeatable interleaving. Oracle: no writer raised, no TransferResult.failed, final store == union of the writers' independently computed object sets byte for byte, each writer's directory id is its model's, no hash-state row vouches for wrong content.",
+    "C16": ("exploration",
+            "2-4 writers with heavily overlapping trees run build()+transfer() into one LocalHashFileDB with one shared hash-state database, as real threads (one State object) or as forked processes (optionally after setuid to an unprivileged uid, so the kernel - not a model - decides permission outcomes). A seeded controller holds a single baton: a writer runs only between two seam points (every filesystem mutation, stat/open/scandir read, state-database call, and every SQL statement issued outside a transaction) and the controller picks who proceeds next under a uniform / sticky / priority-with-change-points policy, so one seed is one exactly repeatable interleaving. Oracle: no writer raised, no TransferResult.failed, final store == union of the writers' independently computed object sets byte for byte, each writer's directory id is its model's, no hash-state row vouches for wrong content. One genuine defect (F15, reflink create/clone vs healing race) is recorded in known_findings.json and printed as KNOWN-FINDING; every failed upload's exception type and innermost library frame are part of the signature so that any other failure still alarms.",
             "Pre-emption only at seam points, not arbitrary bytecodes; pool tasks inside one writer are reordered, not interleaved. Runs as root except in the uid variant.",
             "deterministic simulation: seeded baton scheduler over real threads / forked processes at seam points", "DESIGN.md §5 C16"),
     "C01": ("exploration",
@@ -69,16 +69,16 @@ CHECKS = {
             "Seeded histories under the simulated clock: objects (files and a directory object) enter a LocalHashFileDB or generic store raw (hash-state cold) or through the real add() (state warm), are tampered at a later simulated time (truncate, append, same-length rewrite, rewrite, replace-by-rename optionally with the old mtime restored) always leaving a mode other than exactly 0444, intact objects get chmod-ed away from 0444, the clock advances, and check / hashfile.check(tree) / oids_exist / exists / checkout of a referencing tree / add(verify=True) from a corrupt source are issued in random order and repetition. A byte-level model decides per query: tampered => rejected and removed, never reported existing, never materialised by checkout, never retained by a verifying add; intact => never rejected, deleted or changed, protected after a successful check on the local class.",
             "Tampering that is invisible to (inode, mtime, size) - an in-place same-length rewrite at an unchanged mtime - is not generated (C13 counts and excludes it).",
             "deterministic simulation: seeded tamper/query histories under a simulated clock vs byte-level model", "DESIGN.md §5 C07"),
-    "C13": ("exploration Also: a file rewritten WHILE its directory is being hashed (read hook between two reads of the walk), an old (inode, mtime, size) triple recurring with new bytes, empty files, legacy-algorithm queries, a previous index written to disk and re-opened before update().",
-            "Seeded histories over <=12 files (2% of runs 1000-2100 files, for the SQL parameter-batch boundary) under a simulated clock that advances by 0 .. 1 day, steps backwards and ticks coarsely (1us/1ms/1s/2s): write, in-place overwrite with the same or another length, append, atomic replace (new inode, optionally same length), touch, delete, re-create; interleaved queries state.get, get_many (batch knob 2/3/7/999, stat info supplied or not), hash_file(state), build(dry_run), build_entries(compute_hash), index md5 and update(new, old); injected rows of another algorithm, of the legacy algorithm name and of a newer format version; lookups/saves through a non-local filesystem. Every returned hash is compared with the reference digest of the file's current bytes at that instant; batch and single answers must agree; a mutation that leaves (inode, mtime, size) all identical is detected from the recorded real stat triples, counted and excluded rather than generated away.",
+    "C13": ("exploration",
+            "Seeded histories over <=12 files (2% of runs 1000-2100 files, for the SQL parameter-batch boundary) under a simulated clock that advances by 0 .. 1 day, steps backwards and ticks coarsely (1us/1ms/1s/2s): write, in-place overwrite with the same or another length, append, atomic replace (new inode, optionally same length), touch, delete, re-create; interleaved queries state.get, get_many (batch knob 2/3/7/999, stat info supplied or not), hash_file(state), build(dry_run), build_entries(compute_hash), index md5 and update(new, old); injected rows of another algorithm, of the legacy algorithm name and of a newer format version; lookups/saves through a non-local filesystem. Every returned hash is compared with the reference digest of the file's current bytes at that instant; batch and single answers must agree; a mutation that leaves (inode, mtime, size) all identical is detected from the recorded real stat triples, counted and excluded rather than generated away. Also: a file rewritten WHILE its directory is being hashed (read hook between two reads of the walk), an old (inode, mtime, size) triple recurring with new bytes, empty files, legacy-algorithm queries, a previous index written to disk and re-opened before update().",
             "mtimes are kept >= 1us apart (the token is built from the float st_mtime). Caller-supplied stat info is always fresh.",
             "deterministic simulation: seeded mutation/query histories under a simulated clock (advance, step back, coarse ticks) vs reference digests", "DESIGN.md §5 C13"),
-    "C17": ("exploration Also: view iteration with a prefix (shallow or not) strictly inside an unloaded directory, view.ls and the fs adaptor over a view, close + re-open of the SQLite-backed index between accesses, a directory object that arrives in storage only after its first (failed, swallowed) access, empty directory objects.",
-            "A logical index (explicit files with explicit parents plus 1-3 directory objects at depth 0-2 that contain sub-directories) is realised lazily (one unloaded entry per directory object + ObjectStorage on a real cache) and explicitly, in memory or SQLite-backed via DataIndex.open(); a seeded ORDER of 4-20 accesses - lookup, membership, iteritems(prefix, shallow), ls, info, diff(L, E, hash_only), DataFileSystem ls/info/find/open, view(filter).iteritems over prefix-closed filters (first and second iteration), load() twice - decides at which moment each directory gets loaded. Every answer of the lazy index must equal the explicit index's and the model's; the explicit index is checked against the model too, so a wrong model is a harness error, not an alarm.",
+    "C17": ("exploration",
+            "A logical index (explicit files with explicit parents plus 1-3 directory objects at depth 0-2 that contain sub-directories) is realised lazily (one unloaded entry per directory object + ObjectStorage on a real cache) and explicitly, in memory or SQLite-backed via DataIndex.open(); a seeded ORDER of 4-20 accesses - lookup, membership, iteritems(prefix, shallow), ls, info, diff(L, E, hash_only), DataFileSystem ls/info/find/open, view(filter).iteritems over prefix-closed filters (first and second iteration), load() twice - decides at which moment each directory gets loaded. Every answer of the lazy index must equal the explicit index's and the model's; the explicit index is checked against the model too, so a wrong model is a harness error, not an alarm. Also: view iteration with a prefix (shallow or not) strictly inside an unloaded directory, view.ls and the fs adaptor over a view, close + re-open of the SQLite-backed index between accesses, a directory object that arrives in storage only after its first (failed, swallowed) access, empty directory objects.",
             "Entries are compared on (key, isdir, hash value); the loaded flag and sizes are not observables. longest_prefix is not part of the statement and is not compared. No fault dimension (a failing load is C09's subject).",
             "deterministic simulation: seeded access-order histories on lazy vs explicit realisations vs reference model", "DESIGN.md §5 C17"),
-    "C18": ("exploration The mapping is registered parents-first through add_*, nested-one-role-first, or by assigning StorageInfo records directly; objects reported as pushed must have arrived.",
-            "Seeded scenarios: an index of 1-3 outputs (lazily loaded directory objects or single files, shared contents) with a storage placement - one root prefix, one prefix per output over caches C1,C2 x remotes R1,R2, or a root prefix plus a nested prefix overriding one role (per-role fallback) - remotes being generic stores on the local fs or SimRemoteFS, with or without remote index; objects start in the cache the reference longest-prefix resolution designates. collect(push) -> push round 1 under upload_error / ack_lost / remote_down -> clean round 2 -> caches emptied -> fresh index -> collect -> fetch round 1 (optionally get_error / remote_down) -> clean round -> compare/apply from the cache. Oracle: each remote, then each cache, holds at least the objects of the entries that resolve to it and nothing unreachable, every object intact; pushed+failed (fetched+failed) equals the objects that had to move; checkout equals the data.",
+    "C18": ("exploration",
+            "Seeded scenarios: an index of 1-3 outputs (lazily loaded directory objects or single files, shared contents) with a storage placement - one root prefix, one prefix per output over caches C1,C2 x remotes R1,R2, or a root prefix plus a nested prefix overriding one role (per-role fallback) - remotes being generic stores on the local fs or SimRemoteFS, with or without remote index; objects start in the cache the reference longest-prefix resolution designates. collect(push) -> push round 1 under upload_error / ack_lost / remote_down -> clean round 2 -> caches emptied -> fresh index -> collect -> fetch round 1 (optionally get_error / remote_down) -> clean round -> compare/apply from the cache. Oracle: each remote, then each cache, holds at least the objects of the entries that resolve to it and nothing unreachable, every object intact; pushed+failed (fetched+failed) equals the objects that had to move; checkout equals the data. The mapping is registered parents-first through add_*, nested-one-role-first, or by assigning StorageInfo records directly; objects reported as pushed must have arrived.",
             "No storage prefix lies strictly inside a directory-object entry. With nested prefixes the enclosing prefix's store may legitimately also receive the nested entries (collection walks each prefix's subtree), so set equality is relaxed to min <= actual <= max there and the count identity is only required for non-nested placements (and, under faults, when no object is shared by two (remote, cache) groups).",
             "deterministic simulation: seeded placement x fault-round scenarios vs reference longest-prefix resolution model", "DESIGN.md §5 C18"),
     "C03": ("exploration",
